@@ -491,3 +491,125 @@ def drid_moments(ctx, case=None):
 
 
 contract("C16", "mdtraj/geometry/src/dridkernels.cpp", "drid_moments", lang="c", replay="drid", covers=["partner-iteration", "finished"])(drid_moments)
+
+
+# ---- further closed forms: inertia tensor, density, Karplus J-couplings -----------------------------------------------------------------
+def inertia_tensor(ctx, case=None):
+    """I_ab = sum_i m_i (|r_i|^2 delta_ab - r_ia r_ib) with r_i relative to the centre of mass (docstring formula); 2 frames x 3 atoms, symbolic.
+    The centre of mass is taken through its own contract (sum m_i x_i / sum m_i)."""
+    interp = ctx.interp
+    interp.import_models["numpy"] = npobj.NumpyO()
+    F, A = 2, 3
+    t, X, M = _shape_traj(ctx, F, A)
+    msum = sum(rterm(m) for m in M)
+    com = [[sum(rterm(M[a]) * rterm(X[f][a][k]) for a in range(A)) / msum for k in range(3)] for f in range(F)]
+    interp.import_models["mdtraj.geometry.distance"] = Namespace("distance", compute_center_of_mass=lambda tr: npobj.oarr((F, 3), lambda f, k: SReal(com[f][k])))
+    interp.import_models["mdtraj.utils"] = Namespace("utils", ensure_type=lambda x, *a, **k: x)
+    mod = ctx.module("mdtraj/geometry/order.py")
+    out = ctx.call(mod.globals["compute_inertia_tensor"], t)
+    ctx.ensure("no-exception", not out.raised)
+    if out.raised:
+        return
+    ctx.cover("returned")
+    r = out.value
+    ctx.ensure("shape=(frames,3,3)", tuple(r.shape) == (F, 3, 3))
+    for f in range(F):
+        rel = [[rterm(X[f][a][k]) - com[f][k] for k in range(3)] for a in range(A)]
+        for i in range(3):
+            for k in range(3):
+                want = sum(rterm(M[a]) * ((sum(c * c for c in rel[a]) if i == k else 0) - rel[a][i] * rel[a][k]) for a in range(A))
+                ctx.ensure(f"I[{f}][{i}][{k}]=sum(m*(r^2*delta-r_i*r_k))about-the-centre-of-mass", rterm(r[f][i][k]) == want, kind="lemma-poly" if False else None)
+
+
+contract("C16", "mdtraj/geometry/order.py", "compute_inertia_tensor", replay="descriptors", covers=["returned"], max_paths=50)(inertia_tensor)
+
+
+def density(ctx, case):
+    """density = total mass / cell volume, converted from dalton/nm^3 to kg/m^3 (1 Da/nm^3 = 1.66053906660 kg/m^3, CODATA; the code's constant must
+    agree to 1e-6 relative); masses from the topology or as given; one value per frame"""
+    interp = ctx.interp
+    interp.import_models["numpy"] = npobj.NumpyO()
+    F, A = 2, 3
+    t, X, M = _shape_traj(ctx, F, A)
+    V = [ctx.real(f"volume{f}") for f in range(F)]
+    ctx.assume(*[v > 0 for v in V])
+    t.unitcell_volumes = npobj.oarr((F,), lambda f: V[f])
+    interp.import_models["mdtraj"] = Namespace("md")
+    interp.import_models["mdtraj.utils"] = Namespace("utils", ensure_type=lambda x, *a, **k: x, unit=Namespace("unit"))
+    interp.import_models["mdtraj.utils.unit"] = Namespace("unit")
+    mod = ctx.module("mdtraj/geometry/thermodynamic_properties.py")
+    given = [ctx.real(f"w{a}") for a in range(A)] if case == "given-masses" else None
+    if given:
+        ctx.assume(*[w > 0 for w in given])
+    out = ctx.call(mod.globals["density"], t, masses=(npobj.oarr((A,), lambda a: given[a]) if given else None))
+    ctx.ensure("no-exception", not out.raised)
+    if out.raised:
+        return
+    ctx.cover("returned")
+    r = out.value
+    mass = sum(rterm(m) for m in (given or M))
+    k = z3.RealVal("1.66053906660")
+    for f in range(F):
+        got = rterm(r[f])
+        # got = mass / V * c  with the code's constant c: compare c with CODATA through got*V/mass
+        ctx.ensure(f"density[{f}]=total-mass/volume*(Da/nm^3->kg/m^3)(constant-within-1e-6)", z3.And(got * rterm(V[f]) <= mass * k * (1 + z3.RealVal("1e-6")), got * rterm(V[f]) >= mass * k * (1 - z3.RealVal("1e-6"))))
+
+
+contract("C16", "mdtraj/geometry/thermodynamic_properties.py", "density", cases=["topology-masses", "given-masses"], replay="descriptors", covers=["returned"], max_paths=50)(density)
+
+# Karplus coefficients as published (Voegeli/Bax 2007 Table 1; Schmidt/Ruterjans 1999 Table 1; Hu/Bax 1997): function -> model -> (A, B, C, phase in degrees)
+KARPLUS = {
+    "compute_J3_HN_HA": {"Bax2007": (8.4, -1.36, 0.33, -60), "Ruterjans1999": (7.90, -1.05, 0.65, -60), "Bax1997": (7.09, -1.42, 1.55, -60)},
+    "compute_J3_HN_C": {"Bax2007": (4.36, -1.08, -0.01, 180)},
+    "compute_J3_HN_CB": {"Bax2007": (3.71, -0.59, 0.08, 60)},
+}
+
+
+def j_couplings(ctx, case):
+    """J = A cos^2(phi + phase) + B cos(phi + phase) + C on the phi torsions (compute_phi: callee, C07), coefficients as published; the
+    returned atom indices are compute_phi's"""
+    fn, model = case
+    from mdvc import npreal
+    interp = ctx.interp
+    interp.import_models["numpy"] = npobj.NumpyO()
+    F, R = 2, 2
+    PHI = [[ctx.real(f"phi{f}_{r}") for r in range(R)] for f in range(F)]
+    idx = "<indices of the phi quadruplets>"
+    interp.import_models["mdtraj.geometry"] = Namespace("geometry", compute_phi=lambda tr, **k: (idx, npobj.oarr((F, R), lambda f, r: PHI[f][r])))
+    mod = ctx.module("mdtraj/nmr/scalar_couplings.py")
+    out = ctx.call(mod.globals[fn], "<trajectory>", model=model)
+    ctx.ensure("no-exception", not out.raised)
+    if out.raised:
+        return
+    ctx.cover("returned")
+    ind, J = out.value
+    ctx.ensure("indices-are-those-of-compute_phi", ind is idx)
+    Ac, Bc, Cc, ph = KARPLUS[fn][model]
+    for f in range(F):
+        for r in range(R):
+            got = rterm(J[f][r])
+            # the cosine the code evaluated: find cos(phi + phase) with the code's phase term
+            args = [a for a in _cos_args(got)]
+            ctx.ensure(f"J[{f}][{r}]:one-cosine-argument", len(args) == 1)
+            if len(args) != 1:
+                continue
+            u = args[0]
+            ctx.ensure(f"J[{f}][{r}]:argument=phi+phase({ph}-degrees,within-1e-12)", z3.And(u - rterm(PHI[f][r]) - npreal.PI * ph / 180 <= z3.RealVal("1e-12"), rterm(PHI[f][r]) + npreal.PI * ph / 180 - u <= z3.RealVal("1e-12")))
+            c = npreal.COS(u)
+            ctx.ensure(f"J[{f}][{r}]=A*cos^2+B*cos+C-with-the-published-{model}-coefficients", got == z3.RealVal(repr(Ac)) * c * c + z3.RealVal(repr(Bc)) * c + z3.RealVal(repr(Cc)))
+
+
+def _cos_args(t, acc=None):
+    acc = [] if acc is None else acc
+    if z3.is_app(t):
+        if t.decl().name() == "cos":
+            a = t.arg(0)
+            if not any(a.eq(b) for b in acc):
+                acc.append(a)
+        for ch in t.children():
+            _cos_args(ch, acc)
+    return acc
+
+
+contract("C16", "mdtraj/nmr/scalar_couplings.py", "compute_J3_HN_HA|compute_J3_HN_C|compute_J3_HN_CB", cases=[(f, m) for f, ms in KARPLUS.items() for m in ms],
+         replay="descriptors", covers=["returned"], max_paths=50)(j_couplings)
